@@ -102,9 +102,15 @@ func cmdCheck(argv []string) int {
 		}()
 	}
 	wg.Wait()
-	reps := discharge(results, timeout)
-
 	known := loadKnown()
+	shortFor := map[string]bool{}
+	for _, kf := range known.Findings {
+		if kf.Status == "open" && kf.Property == *prop {
+			shortFor[kf.Obligation] = true
+		}
+	}
+	reps := discharge(results, timeout, shortFor)
+
 	violations := 0
 	var failed []*OblReport
 	nObl, nDis := 0, 0
